@@ -225,6 +225,11 @@ def make_case(ctx, g):
         d, _scopes = b.random_document(n_records=g.rng.randint(1, 5))
         if g.chance(0.15):
             b.many_defaults(d)
+        if g.chance(0.3):
+            # a statement repeated with a value of another kind that == cannot tell apart (1 / True / 1.0, one instant in two zones)
+            for c_ in _scopes:
+                if g.chance(0.6) and b.kind_twin(c_) is not None:
+                    flags.add("kind-twin-statement")
         docs.append(d)
     free = []
     if g.chance(0.4):
